@@ -1,10 +1,107 @@
-(* C09 — property theorems. *)
-From Coq Require Import ZArith List Bool.
+(* C09 — property theorems.  Only statements closed by `exact <lemma>` (or a short
+   wrapper) and the Print Assumptions that the check collects.
+   Text = list of code points; floats from literals = exact decimals (m, s) in
+   normal form (faithful to Python for m < 10^15, s <= 290, see Model.v). *)
+From Coq Require Import String ZArith List Bool.
 From IBL.C09 Require Import Model Proofs.
 Import ListNotations.
 Open Scope Z_scope.
 
-(* tildes never survive in a key name *)
-Theorem C09_untilde_no_tilde : forall k, ~ In 126 (untilde k).
-Proof. exact untilde_no_tilde. Qed.
-Print Assumptions C09_untilde_no_tilde.
+(* Round trip.  For EVERY text f that read_meta_data accepts (any characters, any
+   separators, tilde and duplicate keys, '=' inside values, empty values, scalars
+   of any size) whose list values hold integers — the property's grammar —
+   writing the parsed dictionary and parsing the written file gives the same
+   dictionary, entry for entry and in the same order. *)
+Theorem C09_roundtrip : forall f d,
+  read_meta f = Some d ->
+  (forall k l, In (k, VList l) d -> Forall (fun x => snd x = O) l) ->
+  read_meta (write_meta d) = Some d.
+Proof. exact roundtrip_pub. Qed.
+Print Assumptions C09_roundtrip.
+
+(* The integer-list guard is necessary: a list holding a fraction is written
+   through int() and does not come back (outside the property's grammar). *)
+Theorem C09_roundtrip_fractional_list_refuted : exists f d,
+  read_meta f = Some d /\ read_meta (write_meta d) <> Some d.
+Proof.
+  exists (lit "x=1.5,2"), [(lit "x", VList [(15, 1%nat); (2, O)]);
+                           (lit "neuropixelVersion", VNone); (lit "serial", VNone)].
+  split; [vm_compute; reflexivity|]. vm_compute. discriminate.
+Qed.
+Print Assumptions C09_roundtrip_fractional_list_refuted.
+
+(* Keys of a parsed dictionary are unique and carry no tilde, no '=' and no
+   line-break character. *)
+Theorem C09_keys_clean : forall f d, read_meta f = Some d ->
+  NoDup (map fst d) /\
+  forall k, In k (map fst d) -> ~ In 126 k /\ ~ In 61 k /\ plain k = true.
+Proof. exact read_meta_keys. Qed.
+Print Assumptions C09_keys_clean.
+
+(* Last key wins: the value stored under a key is that of the last line carrying
+   it (after tilde removal), whatever the number of repetitions. *)
+Theorem C09_last_key_wins : forall f es k,
+  mapM parse_line (splitlines (univ_nl f)) = Some es ->
+  read_base f = Some (dict_of es) /\ lookup k (dict_of es) = lookup k (rev es).
+Proof.
+  intros f es k H. split; [unfold read_base; now rewrite H|apply last_key_wins].
+Qed.
+Print Assumptions C09_last_key_wins.
+
+(* Written numbers are read back as the same number: every decimal in normal
+   form, however small (no exponent notation: F-C09-a repaired) or large. *)
+Theorem C09_scalar_roundtrip : forall m s, 0 <= m -> (s = O \/ m mod 10 <> 0) ->
+  parse_value (show_value (VNum (m, s))) = Some (VNum (m, s)).
+Proof. intros m s H1 H2. apply (parse_value_num (m, s)). split; assumption. Qed.
+Print Assumptions C09_scalar_roundtrip.
+
+(* Probe generation: the decision table of _get_neuropixel_version_from_meta
+   (priorities included; the codes are mutually exclusive). *)
+Theorem C09_version_table : forall d,
+  (has (lit "typeEnabled") d = true -> version d = Some V3A) /\
+  (has (lit "typeEnabled") d = false -> lookup (lit "imDatPrb_type") d = None -> version d = None) /\
+  (forall t, has (lit "typeEnabled") d = false -> lookup (lit "imDatPrb_type") d = Some t ->
+     (val_eq_int t 0 = true ->
+        version d = Some (if has (lit "imDatPrb_port") d && has (lit "imDatPrb_slot") d then V3B2 else V3B1)) /\
+     (val_eq_int t 21 = true \/ val_eq_int t 1030 = true -> version d = Some VNP21) /\
+     (val_eq_int t 24 = true \/ val_eq_int t 2013 = true -> version d = Some VNP24) /\
+     (val_eq_int t 1100 = true -> version d = Some VNPultra) /\
+     ((forall c, In c [0; 21; 1030; 24; 2013; 1100] -> val_eq_int t c = false) -> version d = None)).
+Proof. exact version_table. Qed.
+Print Assumptions C09_version_table.
+
+(* Stream type from snsApLfSy = [nAP, nLF, nSY, ...] / typeThis. *)
+Theorem C09_type_table : forall d,
+  (forall a l rest, lookup (lit "snsApLfSy") d = Some (VList (a :: l :: rest)) ->
+     (fst a = 0 -> fst l <> 0 -> get_type d = Some (Some SLf)) /\
+     (fst a <> 0 -> fst l = 0 -> get_type d = Some (Some SAp)) /\
+     ((fst a = 0 <-> fst l = 0) -> get_type d = Some None)) /\
+  (lookup (lit "snsApLfSy") d = None ->
+     get_type d = Some (if val_is_str (lookup (lit "typeThis") d) (lit "nidq") then Some SNidq else None)).
+Proof. exact type_table. Qed.
+Print Assumptions C09_type_table.
+
+(* Channel count = nSavedChans; the sync traces are the last nSY of them. *)
+Theorem C09_counts : forall d a l sy rest n st,
+  lookup (lit "snsApLfSy") d = Some (VList (a :: l :: sy :: rest)) ->
+  lookup (lit "nSavedChans") d = Some (VNum n) ->
+  get_type d = Some (Some st) ->
+  nchannels d = Some (dec_trunc n) /\
+  sync_indices d = Some (dec_trunc n - dec_trunc sy, Z.max 0 (dec_trunc sy)).
+Proof. exact counts_table. Qed.
+Print Assumptions C09_counts.
+
+(* ---- the hypotheses are satisfiable on non-trivial inputs *)
+Definition nl : string := String (Ascii.ascii_of_nat 10) EmptyString.
+Definition ex_file : str :=
+  lit ("a=1.50" ++ nl ++ "~b=x=y" ++ nl ++ "snsApLfSy=384,0,1" ++ nl ++ "a=.25" ++ nl ++
+       "imDatPrb_type=0" ++ nl ++ "imDatPrb_sn=0641" ++ nl ++ "e=0.00005" ++ nl ++ "nSavedChans=385" ++ nl).
+Example ex_read : exists d, read_meta ex_file = Some d /\ length d = 9%nat /\
+  lookup (lit "a") d = Some (VNum (25, 2%nat)) /\
+  lookup (lit "b") d = Some (VStr (lit "x=y")) /\
+  lookup (lit "e") d = Some (VNum (5, 5%nat)) /\
+  lookup (lit "neuropixelVersion") d = Some (VStr (lit "3B1")) /\
+  lookup (lit "serial") d = Some (VInt 641) /\
+  get_type d = Some (Some SAp) /\ sync_indices d = Some (384, 1) /\
+  read_meta (write_meta d) = Some d.
+Proof. eexists. split; [vm_compute; reflexivity|]. vm_compute. repeat split. Qed.
